@@ -1,27 +1,31 @@
 /-
   C11 (D) — the store's memtable rotation / flush protocol as atomic regions.  Core Lean only.
 
-      memtableQueue.add(doc) = [Q-lock: if ¬hasRoom then rotate ; m := mutable]     (pick)
-                               ; yield ;
-                               [no lock: if m.frozen then return "memtable is frozen"] (check)
-                               ; yield ;
-                               [m-lock: m.index.Add(doc)]                              (write)
+  Today's code (22d1a03, `locked = true`):
+
+      memtableQueue.add(doc) = [Q-lock: if ¬hasRoom then rotate ; m := mutable ;
+                                        m.frozen? ; m-lock: m.index.Add(doc)]       ONE region
       Rotate()               = [Q-lock: freeze mutable ; mutable := new memtable]
-      flushMemtables()       = for every frozen memtable m of the queue:
-                               [write a segment with m's documents]                    (flushWrite)
-                               ; [Q-lock: remove m from the queue]                     (flushDrop)
+      flushMemtables()       = [Q-lock(R): snapshot the frozen memtables]               (flushSnap)
+                               then for every memtable m of the snapshot:
+                               [write a segment with m's documents]                     (flushWrite)
+                               ; [Q-lock: remove m from the queue, if still there]      (flushDrop)
+
+  The former shape (`locked = false`, kept as a model variant — `add_on_frozen_fails` and
+  `add_after_flush_lost` show why it was a defect, D15) released the queue lock after the pick:
+
+      add(doc) = [Q-lock: rotate? ; m := mutable] ; [no lock: m.frozen? → error] ; [m-lock: write]
+                          (pick)                            (check)                   (write)
 
   Memtables are numbered in creation order; the mutable one is the newest, every other one is
   frozen (`freeze` is only called by rotation, on the then-mutable memtable).  `hasRoom` is an
-  input of the pick region (`rot`), so every size configuration is covered.  An interleaving
+  input of the pick region (`rot`), so every size configuration is covered.  Several flushers
+  (Flush() callers, the background worker) may run at once, each with its own snapshot — the
+  same memtable can then be written to two segments (duplicated, never lost).  An interleaving
   is an arbitrary list of region executions.
 
-  What is NOT modelled here (C08's subject, known findings D13 / D14): that all memtables of
-  the real store share the template index instances, and compaction.  Because of D13 a
-  document "lost" in the sense of this model is still found by in-process searches of the real
-  store (every memtable searches the same shared indexes); it is lost from the store's own
-  bookkeeping (no queue memtable lists it, the segment written from its memtable counts it
-  not) — that is what the directed schedule observes on the real code.
+  NOT modelled here (C08's subject, known findings D13 / D14): that all memtables of the real
+  store share the template index instances, and compaction.
 -/
 namespace Comet.Conc.Rot
 
@@ -35,13 +39,15 @@ structure RSt where
   frozenQ : List Mt := []
   /-- documents written, with the memtable they went to -/
   contents : List (Mt × Doc) := []
-  /-- documents in written segments -/
+  /-- documents in written segments (a memtable flushed twice appears twice) -/
   segments : List Doc := []
-  /-- frozen memtables whose segment is written but which are still in the queue -/
-  flushed : List Mt := []
-  /-- adds after their pick region: (thread, memtable, doc) -/
+  /-- flushers: the memtables of their snapshot still to be flushed -/
+  snaps : List (Nat × List Mt) := []
+  /-- flushers between the segment write and the queue removal of a memtable -/
+  cur : List (Nat × Mt) := []
+  /-- (former shape) adds after their pick region: (thread, memtable, doc) -/
   picked : List (Nat × Mt × Doc) := []
-  /-- adds after their frozen-check -/
+  /-- (former shape) adds after their frozen-check -/
   checked : List (Nat × Mt × Doc) := []
   /-- documents whose add returned nil -/
   acked : List Doc := []
@@ -50,12 +56,14 @@ structure RSt where
   deriving Repr, DecidableEq
 
 inductive RAct
+  /-- `locked`: the whole add; former shape: its pick region -/
   | pick (t : Nat) (d : Doc) (rot : Bool)
   | check (t : Nat)
   | write (t : Nat)
   | rotate
-  | flushWrite (m : Mt)
-  | flushDrop (m : Mt)
+  | flushSnap (f : Nat)
+  | flushWrite (f : Nat)
+  | flushDrop (f : Nat)
   deriving Repr, DecidableEq
 
 def rotateSt (s : RSt) : RSt :=
@@ -63,10 +71,13 @@ def rotateSt (s : RSt) : RSt :=
 
 def docsOf (s : RSt) (m : Mt) : List Doc := (s.contents.filter (·.1 == m)).map (·.2)
 
-def rstep (s : RSt) : RAct → RSt
+def rstep (locked : Bool) (s : RSt) : RAct → RSt
   | .pick t d rot =>
     let s1 := if rot then rotateSt s else s
-    { s1 with picked := s1.picked ++ [(t, s1.mutable, d)] }
+    if locked then
+      -- nothing can run between the pick and the write: the picked memtable IS the mutable one
+      { s1 with contents := s1.contents ++ [(s1.mutable, d)], acked := d :: s1.acked }
+    else { s1 with picked := s1.picked ++ [(t, s1.mutable, d)] }
   | .check t =>
     match s.picked.find? (·.1 == t) with
     | none => s
@@ -81,30 +92,37 @@ def rstep (s : RSt) : RAct → RSt
       { s with checked := s.checked.erase (t', m, d), contents := s.contents ++ [(m, d)],
                acked := d :: s.acked }
   | .rotate => rotateSt s
-  | .flushWrite m =>
-    if s.frozenQ.contains m && !s.flushed.contains m then
-      { s with segments := s.segments ++ docsOf s m, flushed := m :: s.flushed }
-    else s
-  | .flushDrop m =>
-    if s.flushed.contains m then
-      { s with frozenQ := s.frozenQ.erase m, flushed := s.flushed.erase m }
-    else s
+  | .flushSnap f =>
+    if s.snaps.any (·.1 == f) || s.cur.any (·.1 == f) then s
+    else { s with snaps := (f, s.frozenQ) :: s.snaps }
+  | .flushWrite f =>
+    if s.cur.any (·.1 == f) then s else
+    match s.snaps.find? (·.1 == f) with
+    | none => s
+    | some (f', []) => { s with snaps := s.snaps.erase (f', []) }      -- this flusher is done
+    | some (f', m :: rest) =>
+      { s with segments := s.segments ++ docsOf s m,
+               snaps := (f', rest) :: s.snaps.erase (f', m :: rest), cur := (f', m) :: s.cur }
+  | .flushDrop f =>
+    match s.cur.find? (·.1 == f) with
+    | none => s
+    | some (f', m) => { s with frozenQ := s.frozenQ.erase m, cur := s.cur.erase (f', m) }
 
-def rrun (acts : List RAct) : RSt := acts.foldl rstep {}
+def rrun (locked : Bool) (acts : List RAct) : RSt := acts.foldl (rstep locked) {}
 
 /-- a document is visible if a memtable of the queue or a segment holds it -/
 def visibleDoc (s : RSt) (d : Doc) : Bool :=
   s.segments.contains d ||
   s.contents.any fun p => p.2 == d && (p.1 == s.mutable || s.frozenQ.contains p.1)
 
-/-- hypothesis of `rotation_partial`: whenever a rotation happens (explicit, or inside a pick
-    region) no add is between its pick and its write region -/
-def noRotationDuringAdd : RSt → List RAct → Bool
+/-- hypothesis of `rotation_partial` (former shape): whenever a rotation happens (explicit, or
+    inside a pick region) no add is between its pick and its write region -/
+def noRotationDuringAdd (locked : Bool) : RSt → List RAct → Bool
   | _, [] => true
   | s, a :: as =>
     (match a with
      | .rotate => s.picked.isEmpty && s.checked.isEmpty
      | .pick _ _ true => s.picked.isEmpty && s.checked.isEmpty
-     | _ => true) && noRotationDuringAdd (rstep s a) as
+     | _ => true) && noRotationDuringAdd locked (rstep locked s a) as
 
 end Comet.Conc.Rot
